@@ -169,6 +169,8 @@ def run_check(mod: Any, tier: str, seed: int) -> int:
     prop = mod.ID
     from mc import seams
 
+    # (a run stopped by `timeout` or `kill` still removes its scratch directories: SIGTERM becomes an ordinary exit)
+    signal.signal(signal.SIGTERM, lambda *_a: sys.exit(143))
     os.environ.pop("VERIF_SANDBOX_BASE", None)
     seams.sandbox_base()  # before the fork: workers create their scratch directories inside it
     shards, meta = mod.plan(tier, seed)
